@@ -17,6 +17,11 @@ evaluated over *terms*:
 defined by multiplication axioms, so the queries are QF_NIA); `ceil_cut` reads math.ceil(a / b) on ints as the integer
 ceiling and records the instances in `Interp.lemmas` (the caller owes the Float64 lemma that justifies it).
 
+Strings: `SStr` is a string with a concrete spelling SHAPE (literal pieces and numerals; digit counts known or
+not) and symbolic digit values; str methods, `in`, len, slicing, ==, int()/float()/Fraction()/Decimal() are decided
+per shape by running the real str method / converter on several renderings and requiring one structural answer
+(`s.partition('.')` gives N div 10^k and N mod 10^k as numerals); a shape on which Python raises follows the raise.
+
 Everything that is not numeric (match objects, dict look-ups with concrete keys, list.append, attribute
 access on real objects, nested defs, classes of the real module) is evaluated concretely / structurally.
 Branches on symbolic conditions fork: `Interp.explore(thunk)` re-executes the kernel once per feasible
@@ -96,12 +101,43 @@ class SRat:
 
 
 class SDecStr:
-    """The decimal numeral whose digits (integer part followed by k fractional digits) spell N >= 0."""
-    __slots__ = ('n', 'k')
+    """The decimal numeral whose digits (integer part followed by k fractional digits) spell N >= 0.
+    `int_digits`: number of digits of the integer part when the spelling fixes it (0 = empty integer part, ".5"),
+    None = unknown but >= 1 (any number of leading zeros).  With k == 0 it is a plain digit run."""
+    __slots__ = ('n', 'k', 'int_digits', 'parent', 'role', '_ip', '_fp')
 
-    def __init__(self, n, k):
+    def __init__(self, n, k, int_digits=None):
         self.n = n  # SInt
         self.k = k
+        self.int_digits = int_digits
+        self.parent = None
+        self.role = None
+        self._ip = None
+        self._fp = None
+        if k == 0 and int_digits == 0:
+            raise HarnessError('pyk: empty digit run')
+
+    def __repr__(self):
+        return f'SDecStr({self.n}, k={self.k}, int_digits={self.int_digits})'
+
+
+class SStr:
+    """A string whose spelling SHAPE is concrete and whose digits are symbolic: a concatenation of literal pieces
+    (str) and numerals (SDecStr).  String operations are decided per shape by running the REAL str method on two
+    renderings (unknown digit counts rendered with two different lengths) and requiring the same structural result."""
+    __slots__ = ('parts',)
+
+    def __init__(self, parts):
+        self.parts = parts
+
+    def __repr__(self):
+        return f'SStr({self.parts})'
+
+
+class StrMethod:
+    def __init__(self, obj, name):
+        self.obj = obj
+        self.name = name
 
 
 class SymObj:
@@ -199,7 +235,7 @@ class _NeedFork(Exception):
 
 
 def is_sym(v):
-    return isinstance(v, (SInt, SFloat, SBool, SRat, SDecStr))
+    return isinstance(v, (SInt, SFloat, SBool, SRat, SDecStr, SStr))
 
 
 def native(fn):
@@ -391,8 +427,8 @@ class Interp:
             return v.num != self.bv(0)
         if isinstance(v, (SymObj, Opaque, Closure, BoundMethod)):
             return True
-        if isinstance(v, SDecStr):
-            return True
+        if isinstance(v, (SDecStr, SStr)):
+            return True      # mkstr never builds an empty symbolic string
         return bool(v)
 
     def to_float(self, v):
@@ -404,8 +440,9 @@ class Interp:
                 return v
             if isinstance(v, (SInt, SBool)):
                 return SRat(self.it(v), 1)
-            if isinstance(v, SDecStr):
-                return SRat(v.n.t, 10 ** v.k)
+            if isinstance(v, (SDecStr, SStr)):
+                sg, n, k = self.numeric_view(v, float)
+                return SRat(n if sg > 0 else -n, 10 ** k)
             if isinstance(v, (int, float, fractions.Fraction)):
                 return fractions.Fraction(v)
             raise HarnessError(f'pyk: float() of {type(v).__name__}')
@@ -413,14 +450,17 @@ class Interp:
             if self.int_mode == 'int':
                 raise HarnessError('pyk: int -> float conversion is not available in Int mode')
             return SFloat(z3.fpSignedToFP(RNE, self.it(v), F64))
-        if isinstance(v, SDecStr):
-            self.add_side(self.in_range(v.n.t, 0, (1 << 53) - 1), 'decimal digits < 2^53')
-            if v.k > 22:
+        if isinstance(v, (SDecStr, SStr)):
+            sg, n, k = self.numeric_view(v, float)
+            if self.int_mode == 'int':
+                raise HarnessError('pyk: float() of a numeral is not available in Int mode')
+            self.add_side(self.in_range(n, 0, (1 << 53) - 1), 'decimal digits < 2^53')
+            if k > 22:
                 raise HarnessError('pyk: more than 22 fractional digits')
-            x = z3.fpSignedToFP(RNE, v.n.t, F64)
-            if v.k:
-                x = z3.fpDiv(RNE, x, z3.FPVal(float(10 ** v.k), F64))
-            return SFloat(x)
+            x = z3.fpSignedToFP(RNE, n, F64)
+            if k:
+                x = z3.fpDiv(RNE, x, z3.FPVal(float(10 ** k), F64))
+            return SFloat(x if sg > 0 else z3.fpNeg(x))
         if isinstance(v, (int, float)):
             return float(v)
         raise HarnessError(f'pyk: float() of {type(v).__name__}')
@@ -525,8 +565,9 @@ class Interp:
             return v
         if isinstance(v, (SInt, SBool)):
             return SRat(self.it(v), 1)
-        if isinstance(v, SDecStr):
-            return SRat(v.n.t, 10 ** v.k)
+        if isinstance(v, (SDecStr, SStr)):
+            sg, n, k = self.numeric_view(v, fractions.Fraction)
+            return SRat(n if sg > 0 else -n, 10 ** k)
         if isinstance(v, bool):
             v = int(v)
         if isinstance(v, (int, fractions.Fraction)):
@@ -617,6 +658,257 @@ class Interp:
     def _cmp_terms(op, x, y):
         return {'<': x < y, '<=': x <= y, '>': x > y, '>=': x >= y, '==': x == y, '!=': x != y}[op]
 
+    # -- strings with a concrete shape and symbolic digits ---------------------------------------------
+    _PRIV = 0xE000
+    _CLASS_PREDICATES = ('isdigit', 'isdecimal', 'isnumeric', 'isalpha', 'isalnum', 'isspace', 'isascii', 'isupper',
+                         'islower', 'isprintable', 'istitle', 'isidentifier')
+    _STR_METHODS = ('partition', 'rpartition', 'split', 'rsplit', 'strip', 'lstrip', 'rstrip', 'startswith', 'endswith',
+                    'removeprefix', 'removesuffix', 'replace', 'count', 'upper', 'lower', 'casefold', 'find', 'rfind',
+                    'index', 'rindex', 'splitlines', '__contains__', '__len__', '__getitem__', 'ljust', 'rjust',
+                    'center', 'zfill', 'encode', 'swapcase', 'title', 'capitalize', 'expandtabs')
+
+    def str_parts(self, v):
+        if isinstance(v, SStr):
+            return list(v.parts)
+        if isinstance(v, SDecStr):
+            return [v]
+        if isinstance(v, str):
+            return [v] if v else []
+        raise HarnessError(f'pyk: expected a string, got {type(v).__name__}')
+
+    def _numeral_parts(self, d):
+        """numeral with k > 0 -> its integer-part digit run (unless empty), '.', and its k-digit fraction run"""
+        if d.k == 0:
+            return [d]
+        if d._fp is None:
+            p = 10 ** d.k
+            if self.int_mode == 'int':
+                ip, fpv = d.n.t / z3.IntVal(p), d.n.t % z3.IntVal(p)
+            else:
+                ip, fpv = z3.UDiv(d.n.t, self.bv(p)), z3.URem(d.n.t, self.bv(p))
+            d._fp = SDecStr(SInt(fpv), 0, d.k)
+            d._fp.parent, d._fp.role = d, 'frac'
+            if d.int_digits != 0:
+                d._ip = SDecStr(SInt(ip), 0, d.int_digits)
+                d._ip.parent, d._ip.role = d, 'int'
+        return ([d._ip] if d._ip is not None else []) + ['.', d._fp]
+
+    def _segs(self, v):
+        """flat list of literal strings (merged) and digit runs (SDecStr with k == 0)"""
+        out = []
+        for p in self.str_parts(v):
+            for q in (self._numeral_parts(p) if isinstance(p, SDecStr) else [p]):
+                if isinstance(q, str) and out and isinstance(out[-1], str):
+                    out[-1] += q
+                elif q != '':
+                    out.append(q)
+        return out
+
+    def mkstr(self, parts):
+        """normalise: merge literals, re-assemble a numeral from its own pieces, collapse to str / SDecStr when possible"""
+        flat = []
+        for p in parts:
+            if isinstance(p, SStr):
+                flat.extend(p.parts)
+            else:
+                flat.append(p)
+        segs = []
+        for q in flat:
+            if isinstance(q, str):
+                if q == '':
+                    continue
+                if segs and isinstance(segs[-1], str):
+                    segs[-1] += q
+                else:
+                    segs.append(q)
+            else:
+                segs.append(q)
+        out = []
+        i = 0
+        while i < len(segs):
+            q = segs[i]
+            # [int run] '.' [frac run] of the same numeral, the '.' being a whole literal or the tail/head of one
+            if isinstance(q, SDecStr) and q.role == 'int' and i + 2 < len(segs) and isinstance(segs[i + 1], str) \
+                    and segs[i + 1] == '.' and segs[i + 2] is q.parent._fp:
+                out.append(q.parent)
+                i += 3
+                continue
+            if isinstance(q, str) and q.endswith('.') and i + 1 < len(segs) and isinstance(segs[i + 1], SDecStr) \
+                    and segs[i + 1].role == 'frac' and segs[i + 1].parent.int_digits == 0 \
+                    and not (len(q) == 1 and out and isinstance(out[-1], SDecStr)):
+                if q[:-1]:
+                    out.append(q[:-1])
+                out.append(segs[i + 1].parent)
+                i += 2
+                continue
+            out.append(q)
+            i += 1
+        if not out:
+            return ''
+        if len(out) == 1:
+            return out[0]
+        return SStr(out)
+
+    def _render(self, segs, L, digit=None):
+        """segs -> concrete string; digit runs become `count` copies (unknown count: L) of `digit` or of a private char"""
+        out = []
+        for i, q in enumerate(segs):
+            if isinstance(q, str):
+                out.append(q)
+            else:
+                n = q.int_digits if q.int_digits is not None else L
+                out.append((digit or chr(self._PRIV + i)) * n)
+        return ''.join(out)
+
+    def _unrender(self, obj, segs, L):
+        """map the result of a real str operation on a private-char rendering back to symbolic strings"""
+        if isinstance(obj, str):
+            parts = []
+            i = 0
+            while i < len(obj):
+                c = ord(obj[i])
+                if self._PRIV <= c < self._PRIV + len(segs):
+                    q = segs[c - self._PRIV]
+                    n = q.int_digits if q.int_digits is not None else L
+                    if obj[i:i + n] != obj[i] * n or obj[i + n:i + n + 1] == obj[i]:
+                        raise HarnessError('pyk: string operation cuts through a run of symbolic digits')
+                    # a complete run only counts if it is THE run (starts where the run starts)
+                    parts.append(q)
+                    i += n
+                else:
+                    j = i
+                    while j < len(obj) and not (self._PRIV <= ord(obj[j]) < self._PRIV + len(segs)):
+                        j += 1
+                    parts.append(obj[i:j])
+                    i = j
+            return self.mkstr(parts)
+        if isinstance(obj, (list, tuple)):
+            return type(obj)(self._unrender(x, segs, L) for x in obj)
+        if isinstance(obj, (bool, int)) or obj is None:
+            return obj
+        if isinstance(obj, bytes):
+            raise HarnessError('pyk: bytes of a symbolic string')
+        raise HarnessError(f'pyk: unexpected result type {type(obj).__name__} of a string operation')
+
+    def _same_shape(self, a, b):
+        if isinstance(a, (list, tuple)):
+            return type(a) is type(b) and len(a) == len(b) and all(self._same_shape(x, y) for x, y in zip(a, b))
+        if isinstance(a, SStr):
+            return isinstance(b, SStr) and len(a.parts) == len(b.parts) and all(self._same_shape(x, y) for x, y in zip(a.parts, b.parts))
+        if isinstance(a, SDecStr):
+            return a is b
+        return type(a) is type(b) and a == b
+
+    @staticmethod
+    def _has_digit(x):
+        if isinstance(x, str):
+            return any(ch.isdigit() for ch in x)
+        if isinstance(x, (tuple, list)):
+            return any(Interp._has_digit(y) for y in x)
+        return False
+
+    def str_method(self, s, name, args, kwargs):
+        """Decide a str operation on a shaped string: run the REAL method on two renderings and compare."""
+        segs = self._segs(s)
+        if any(is_sym(a) for a in args) or any(is_sym(v) for v in kwargs.values()):
+            raise HarnessError(f'pyk: str.{name} with a symbolic argument')
+        if name in self._CLASS_PREDICATES:
+            rs = {getattr(self._render(segs, L, '7'), name)(*args, **kwargs) for L in (1, 3, 6)}
+            if len(rs) != 1:
+                raise HarnessError(f'pyk: str.{name} depends on the number of digits')
+            return rs.pop()
+        if name not in self._STR_METHODS:
+            if name in ('format', 'join', '__mod__', 'format_map'):
+                return '<sym>'
+            raise HarnessError(f'pyk: str.{name} on a symbolic string is outside the subset')
+        if self._has_digit(args) or self._has_digit(list(kwargs.values())):
+            raise HarnessError(f'pyk: str.{name} with an argument containing digits depends on the symbolic digits')
+        results = []
+        for L in (3, 5, 9):
+            r = self._render(segs, L)
+            try:
+                v = getattr(r, name)(*args, **kwargs)
+            except Exception as e:
+                v = ('!raise', type(e).__name__)
+            if isinstance(v, tuple) and v and v[0] == '!raise':
+                results.append(v)
+            else:
+                results.append(('ok', self._unrender(v, segs, L)))
+        if not all(self._same_shape(results[0], r) for r in results[1:]):
+            raise HarnessError(f'pyk: str.{name}{tuple(args)} depends on the number of digits of the numeral')
+        if results[0][0] == '!raise':
+            raise PyRaise(results[0][1], f'str.{name}')
+        return results[0][1]
+
+    def str_eq(self, a, b):
+        """a == b where at least one side is a shaped string -> bool or SBool"""
+        if isinstance(a, str):
+            a, b = b, a
+        if not isinstance(b, (str, SDecStr, SStr)):
+            return False
+        if not isinstance(b, str):
+            sa, sb = self._segs(a), self._segs(b)
+            if len(sa) == len(sb) and all((x is y) if isinstance(x, SDecStr) else x == y for x, y in zip(sa, sb)):
+                return True
+            raise HarnessError('pyk: equality of two different symbolic strings')
+        import re as _re
+        segs = self._segs(a)
+        pat = ''
+        for q in segs:
+            if isinstance(q, str):
+                pat += _re.escape(q)
+            else:
+                pat += r'(\d{%d})' % q.int_digits if q.int_digits is not None else r'(\d+)'
+        m = _re.fullmatch(pat, b, _re.ASCII)
+        if not m:
+            return False
+        runs = [q for q in segs if isinstance(q, SDecStr)]
+        if any(q.int_digits is None for q in runs):
+            raise HarnessError('pyk: equality with a digit string depends on leading zeros of the numeral')
+        conds = [q.n.t == self.bv(int(g)) for q, g in zip(runs, m.groups())]
+        return SBool(z3.And(*conds)) if conds else True
+
+    def numeric_view(self, v, conv):
+        """int(v) / float(v) / Fraction(v) / Decimal(v) of a shaped string: (sign, N term, k) with value sign*N/10^k.
+        Acceptance is decided by the REAL converter on renderings; a shape the converter rejects raises ValueError."""
+        if isinstance(v, SDecStr) and v.parent is None:
+            if conv is int and v.k > 0:
+                raise PyRaise('ValueError', 'invalid literal for int() with base 10')
+            return 1, v.n.t, v.k
+        import re as _re
+        segs = self._segs(v)
+        verdicts = set()
+        for L in (1, 3, 6):
+            r = self._render(segs, L, '7')
+            try:
+                conv(r)
+                verdicts.add(True)
+            except (ValueError, decimal.InvalidOperation):
+                verdicts.add(False)
+        if len(verdicts) != 1:
+            raise HarnessError('pyk: numeric conversion depends on the number of digits')
+        if not verdicts.pop():
+            raise PyRaise('ValueError', f'invalid literal for {getattr(conv, "__name__", "number")}()')
+        sk = self._render([q if isinstance(q, str) else SDecStr(q.n, 0, 1) for q in segs], 1)
+        m = _re.fullmatch(r'\s*([+-]?)([\ue000-\uf8ff]?)(?:\.([\ue000-\uf8ff]?))?\s*', sk)
+        if not m or not (m.group(2) or m.group(3)):
+            raise HarnessError(f'pyk: numeric spelling {sk!r} is outside the subset (exponent, underscore, ratio, ...)')
+        ip = segs[ord(m.group(2)) - self._PRIV] if m.group(2) else None
+        fpart = segs[ord(m.group(3)) - self._PRIV] if m.group(3) else None
+        sign = -1 if m.group(1) == '-' else 1
+        if fpart is None:
+            return sign, ip.n.t, 0
+        if fpart.int_digits is None:
+            raise HarnessError('pyk: fraction part with an unknown number of digits')
+        k = fpart.int_digits
+        if ip is None:
+            if fpart.role == 'frac' and fpart.parent.int_digits == 0:
+                return sign, fpart.parent.n.t, k
+            return sign, fpart.n.t, k
+        if ip.role == 'int' and fpart.role == 'frac' and ip.parent is fpart.parent:
+            return sign, ip.parent.n.t, k
+        return sign, self.i_add(self.i_mul(ip.n.t, None, None, 10 ** k), fpart.n.t), k
+
     # -- binary operators ---------------------------------------------------------------------------
     def binop(self, op, a, b):
         """op: ast operator class"""
@@ -624,8 +916,14 @@ class Interp:
             return self._native_binop(op, a, b)
         isf = lambda v: isinstance(v, (SFloat, float))
         isr = lambda v: isinstance(v, (SRat, fractions.Fraction, decimal.Decimal))
-        if isinstance(a, SDecStr) or isinstance(b, SDecStr):
-            raise HarnessError('pyk: arithmetic on a numeral string is outside the subset')
+        if isinstance(a, (SDecStr, SStr)) or isinstance(b, (SDecStr, SStr)):
+            if op is ast.Add and all(isinstance(x, (SDecStr, SStr, str)) for x in (a, b)):
+                return self.mkstr(self.str_parts(a) + self.str_parts(b))
+            if op is ast.Mod and isinstance(a, str):
+                return '<sym>'
+            if op is ast.Add or op is ast.Mult:
+                raise PyRaise('TypeError', 'unsupported operand type(s) for str')
+            raise PyRaise('TypeError', 'unsupported operand type(s) for str')
         name = {ast.Add: '+', ast.Sub: '-', ast.Mult: '*', ast.Div: '/', ast.FloorDiv: '//', ast.Mod: '%',
                 ast.LShift: '<<', ast.RShift: '>>', ast.BitOr: '|', ast.BitAnd: '&', ast.BitXor: '^',
                 ast.Pow: '**'}.get(op)
@@ -709,8 +1007,12 @@ class Interp:
                 r = a is b
             return r if isinstance(op, ast.Is) else not r
         if isinstance(op, (ast.In, ast.NotIn)):
-            if is_sym(a):
-                if isinstance(b, (list, tuple, set, frozenset, range)):
+            if isinstance(b, (SDecStr, SStr)) and isinstance(a, str):
+                r = self.str_method(b, '__contains__', [a], {})
+            elif isinstance(a, (SDecStr, SStr)) and isinstance(b, (str, SDecStr, SStr)):
+                raise HarnessError('pyk: substring test with a symbolic needle')
+            elif is_sym(a):
+                if isinstance(b, (list, tuple, set, frozenset, range, dict)):
                     terms = [self.truth_term(self.compare(ast.Eq(), a, x)) for x in b]
                     r = SBool(z3.Or(*terms) if terms else z3.BoolVal(False))
                 else:
@@ -729,8 +1031,13 @@ class Interp:
                 return {'<': o.lt, '<=': o.le, '>': o.gt, '>=': o.ge, '==': o.eq, '!=': o.ne}[name](a, b)
             except Exception as e:
                 raise PyRaise(type(e).__name__, str(e))
-        if isinstance(a, SDecStr) or isinstance(b, SDecStr):
-            raise HarnessError('pyk: comparison of a numeral string')
+        if isinstance(a, (SDecStr, SStr)) or isinstance(b, (SDecStr, SStr)):
+            if name not in ('==', '!='):
+                raise HarnessError('pyk: ordering comparison of a symbolic string')
+            eq = self.str_eq(a, b)
+            if name == '==':
+                return eq
+            return (not eq) if isinstance(eq, bool) else SBool(z3.Not(eq.t))
         if (a is None or b is None or isinstance(a, str) or isinstance(b, str)) and name in ('==', '!='):
             return name == '!='
         if isinstance(a, (SRat, fractions.Fraction)) or isinstance(b, (SRat, fractions.Fraction)):
@@ -786,10 +1093,9 @@ class Interp:
             return self.fp_to_int(v.t, z3.RTZ(), 'int(float) range')
         if isinstance(v, SRat):
             return self.r_trunc(v)
-        if isinstance(v, SDecStr):
-            if v.k == 0:
-                return v.n
-            raise PyRaise('ValueError', 'invalid literal for int()')
+        if isinstance(v, (SDecStr, SStr)):
+            sg, n, k = self.numeric_view(v, int)
+            return SInt(n if sg > 0 else -n)
         if isinstance(v, fractions.Fraction):
             return int(v)
         return int(v)
@@ -835,7 +1141,7 @@ class Interp:
             return any(x in (float, object) for x in ts)
         if isinstance(v, SRat):
             return any(x in (fractions.Fraction, decimal.Decimal, object) for x in ts)
-        if isinstance(v, SDecStr):
+        if isinstance(v, (SDecStr, SStr)):
             return any(x in (str, object) for x in ts)
         if isinstance(v, SymObj):
             return any(isinstance(x, type) and issubclass(v.cls, x) for x in ts)
@@ -897,10 +1203,12 @@ class Interp:
             raise HarnessError('pyk: round() of this value kind')
         if f is print:
             return True, None
-        if f is str and len(args) == 1 and is_sym(args[0]):
+        if f is str and len(args) == 1 and is_sym(args[0]) and not isinstance(args[0], (SDecStr, SStr)):
             return True, '<sym>'
-        if f is len and len(args) == 1 and isinstance(args[0], SDecStr):
-            raise HarnessError('pyk: len() of a numeral string')
+        if f is len and len(args) == 1 and isinstance(args[0], (SDecStr, SStr)):
+            return True, self.str_method(args[0], '__len__', [], {})
+        if f is str and len(args) == 1 and isinstance(args[0], (SDecStr, SStr)):
+            return True, args[0]
         return False, None
 
     # -- calls --------------------------------------------------------------------------------------
@@ -908,6 +1216,8 @@ class Interp:
         kwargs = kwargs or {}
         if isinstance(f, BoundMethod):
             return self.call(f.fn, [f.obj] + list(args), kwargs)
+        if isinstance(f, StrMethod):
+            return self.str_method(f.obj, f.name, list(args), kwargs)
         if isinstance(f, Closure):
             return self.call_node(f.node, args, kwargs, f.globs, f.env)
         ok, v = self.intrinsic(f, args, kwargs)
@@ -1141,6 +1451,10 @@ class Interp:
                         return d.__func__
                     return d
             raise PyRaise('AttributeError', attr)
+        if isinstance(obj, (SDecStr, SStr)):
+            if not hasattr(str, attr):
+                raise PyRaise('AttributeError', f"'str' object has no attribute '{attr}'")
+            return StrMethod(obj, attr)
         if is_sym(obj):
             raise HarnessError(f'pyk: attribute .{attr} of a symbolic {type(obj).__name__}')
         if isinstance(obj, Opaque):
@@ -1174,6 +1488,8 @@ class Interp:
             return acc
         if is_sym(idx):
             raise HarnessError('pyk: symbolic subscript of this kind')
+        if isinstance(base, (SDecStr, SStr)):
+            return self.str_method(base, '__getitem__', [idx], {})
         if is_sym(base):
             raise HarnessError('pyk: subscript of a symbolic value')
         try:
@@ -1320,6 +1636,8 @@ class Interp:
                 lo = self.eval(e.slice.lower, env, globs) if e.slice.lower is not None else None
                 hi = self.eval(e.slice.upper, env, globs) if e.slice.upper is not None else None
                 st = self.eval(e.slice.step, env, globs) if e.slice.step is not None else None
+                if isinstance(base, (SDecStr, SStr)) and not (is_sym(lo) or is_sym(hi) or is_sym(st)):
+                    return self.str_method(base, '__getitem__', [slice(lo, hi, st)], {})
                 if is_sym(lo) or is_sym(hi) or is_sym(st) or is_sym(base):
                     raise HarnessError('pyk: symbolic slice')
                 return base[slice(lo, hi, st)]
